@@ -32,6 +32,7 @@ Definition audited_mut : list (string * string * string * string) := [
   ("plsql.go", "SubqueryExpr", "append", "query.postProcessors");
   ("plsql.go", "ExistExpr", "append", "query.postProcessors");
   ("plsql.go", "FunExpr", "append", "query.postProcessors");
+  ("plsql.go", "*Query.addPostProcessors", "append", "query.postProcessors");
   ("plsql.go", "FunExpr", "index-assign", "query.singletonExecutions");
   ("plsql.go", "AggrFunExpr", "index-assign", "query.singletonExecutions");
   (* locals made with make() whose name is shadowed by a parameter / a comma-ok binding *)
@@ -47,6 +48,9 @@ Definition audited_mut : list (string * string * string * string) := [
   ("sanitizer/sanitizer.go", "escapeStringState", "append", "l.parts");
   ("sanitizer/sanitizer.go", "oneLineCommentState", "append", "l.parts");
   ("sanitizer/sanitizer.go", "multilineCommentState", "append", "l.parts");
+  ("sanitizer/sanitizer.go", "backtickState", "append", "l.parts");
+  (* the slice of parsed segments ExecReader builds before publishing it in the cache *)
+  ("selector.go", "ExecReader", "append", "allSelectors");
   (* the process-wide selector cache (C13), not the input *)
   ("selector.go", "ExecReader", "index-assign", "cache");
   (* Sort sorts its argument in place; its only caller ExecOrderBy passes the slice ExecSelect /
@@ -115,7 +119,8 @@ Definition audited_loop_funcs : list string := [
   "processors.go:FindArrayIndex"; "sanitizer/sanitizer.go:NewQuery"; "sanitizer/sanitizer.go:rawState";
   "sanitizer/sanitizer.go:singleQuoteState"; "sanitizer/sanitizer.go:doubleQuoteState";
   "sanitizer/sanitizer.go:placeholderState"; "sanitizer/sanitizer.go:escapeStringState";
-  "sanitizer/sanitizer.go:oneLineCommentState"; "sanitizer/sanitizer.go:multilineCommentState"
+  "sanitizer/sanitizer.go:oneLineCommentState"; "sanitizer/sanitizer.go:multilineCommentState";
+  "sanitizer/sanitizer.go:backtickState"
 ].
 Definition loop_ok (l : string) : bool :=
   existsb (fun f => String.prefix (f ++ ":") l) audited_loop_funcs.
